@@ -16,7 +16,8 @@ PROP = "C10"
 CLASSES = ["Elementwise", "Permute", "DropLead", "ResizeLead", "AddLead", "DropGridDim", "ReplaceOnGrid", "Remap", "Dual",
            "Subset", "IndexGridDim", "Copy"]
 CONSTS = "CONSTANTS\n MaxDepth = %d\n Broken = %s\n EmitSucc = %s\n"
-MODEL_CFG = ("SPECIFICATION Spec\n" + CONSTS + "INVARIANT TypeOK\nINVARIANT IsUx\nINVARIANT GridDimsConsistent\n"
+BROKEN_CFG = "SPECIFICATION Spec\n" + CONSTS + "INVARIANT %s\nCHECK_DEADLOCK FALSE\n"
+MODEL_CFG = ("SPECIFICATION Spec\n" + CONSTS + "INVARIANT TypeOK\nINVARIANT IsUx\nINVARIANT GridDimsConsistent\nINVARIANT DataFollowsGrid\n"
              "PROPERTY SameGrid\nPROPERTY DeepCopyFresh\nPROPERTY GridsGrow\nCHECK_DEADLOCK FALSE\n")
 GEN_CFG = "SPECIFICATION Spec\n" + CONSTS + "INVARIANT Emit\nVIEW GenView\nCHECK_DEADLOCK FALSE\n"
 SIM_CFG = "SPECIFICATION Spec\n" + CONSTS + "INVARIANT TypeOK\nCHECK_DEADLOCK FALSE\n"
@@ -154,7 +155,9 @@ def py_failed(ln, a, G, free, e):
             f.add("DimsEffect")
     elif not free and kn(ln["dims"]) != kn(e["dims"]):
         f.add("DimsEffect")
-    if op in X.COPY_OPS and not (a["grid"] in ln["g"]["eq"] and not ln["g"]["share"]):
+    if isux and (not a["al"] or (op in X.SELECT_OPS and ln["src"] != ln["sel"])):
+        f.add("DataFollowsGrid")
+    if op in X.COPY_OPS and not (a["grid"] in ln["g"]["eq"] and not ln["g"]["share"] and not ln["g"]["mem"] and not ln["g"]["leak"]):
         f.add("DeepCopyIndependent")
     if not free and not (e["name"] == "free" or (ln["name"] if ln["name"] != "other" else "free") == e["name"]):
         f.add("Name")
@@ -186,10 +189,12 @@ class Runner:
         hux_ = X.hux.import_ux()
         own = op in X.OWN_OPS
         free = node["free"]
-        ln = {"op": op, "d": d, "out": "value", "val": "na"}
+        ln = {"op": op, "d": d, "out": "value", "val": "na", "src": [], "sel": []}
         r = rp = None
         err = perr = None
-        use_oracle = not own and op not in X.FREE_OPS
+        select = op in X.SELECT_OPS
+        # a selection of FACES is exact (not inclusive): plain xarray's isel on the same data is the value oracle there too
+        use_oracle = (not own and op not in X.FREE_OPS) or (select and X.grid_dim(x) == "n_face")
         if use_oracle:
             try:
                 rp = X.apply(op, d, xp)
@@ -215,10 +220,22 @@ class Runner:
         import xarray as xr
 
         if not isinstance(r, xr.DataArray):
-            ln.update({"cls": "Other", "grid": 0, "dims": [], "name": "other", "g": {"cnt": {k: -1 for k in X.GRID_KINDS}, "eq": [], "share": []}})
+            ln.update({"cls": "Other", "grid": 0, "dims": [], "name": "other", "g": {"cnt": {k: -1 for k in X.GRID_KINDS}, "eq": [], "share": [], "mem": [], "leak": []}})
             ln["rtype"] = type(r).__name__
             return ln, r, rp
         ln.update(X.project(r, reg))
+        if select and ln["cls"] == "Ux" and ln["grid"] != 0 and X.grid_dim(r) is not None:
+            ln["src"], ln["sel"] = X.selection_maps(op, x, r, dest=env["dest"])
+            if not use_oracle:
+                # node / edge selections are inclusive: the data must be the operand's data at the tracer's source indices
+                k = X.grid_dim(x)
+                try:
+                    import numpy as np
+
+                    want = np.take(np.asarray(x.values), ln["src"], axis=list(x.dims).index(k))
+                    ln["val"] = "eq" if tuple(r.dims) == tuple(x.dims) and X._arr_eq(np.asarray(r.values), want) else "diff"
+                except Exception:  # noqa
+                    ln["val"] = "diff"
         if use_oracle and rp is not None:
             ln["val"] = "eq" if X.same_as_plain(r, rp) else "diff"
             # the operation table itself against xarray: predicted dims of the result
@@ -248,12 +265,12 @@ class Runner:
             depth_here = prog.count("/")
             if failed:
                 self.emit(tid, seg_init, steps)
-                self.verdicts[tid] = (len(steps), sorted(failed), {k: ln.get(k) for k in ("err", "cls", "grid", "dims", "name", "g", "val", "out", "rtype") if k in ln})
+                self.verdicts[tid] = (len(steps), sorted(failed), {k: ln.get(k) for k in ("err", "cls", "grid", "dims", "name", "g", "val", "out", "rtype", "src", "sel") if k in ln})
                 if not node["kids"]:
                     continue
                 # continue below the failure from the state the specification expects, if it can be had
                 nx = None
-                struct_ok = ln["out"] == "value" and not (failed & {"IsUx", "SameGrid", "DimsEffect", "GridDimsConsistent", "GridDimsNumeric", "Name"})
+                struct_ok = ln["out"] == "value" and not (failed & {"IsUx", "SameGrid", "DimsEffect", "GridDimsConsistent", "GridDimsNumeric", "Name", "DataFollowsGrid"})
                 if struct_ok:
                     nx, nxp = r, (rp if rp is not None else X.to_plain(r))
                 elif op not in X.OWN_OPS and op not in X.FREE_OPS and op not in X.COPY_OPS and rp is not None and e["grid"] <= len(reg.grids):
@@ -274,7 +291,9 @@ class Runner:
             try:
                 idx, dt = X.obs_bookkeeping(r)
                 for q in e["dims"]:
-                    if q["k"] in idx and idx[q["k"]] != q["idx"]:
+                    # "dup" means "not known to be unique": only a wrong "uniq" / "none" is drift
+                    o_ = idx.get(q["k"])
+                    if o_ is not None and ((q["idx"] == "uniq" and o_ != "uniq") or ((q["idx"] == "none") != (o_ == "none"))):
                         self.drift.setdefault("idx:%s" % op, [0, prog, q["k"], idx[q["k"]], q["idx"]])[0] += 1
                 if dt != e["dt"] and e["dt"] == "float":
                     self.drift.setdefault("dt:%s" % op, [0, prog, dt])[0] += 1
@@ -342,9 +361,10 @@ def run(ctx):
     r = ctx.tlc_ok("UxOps", MODEL_CFG % (depth, "FALSE", "FALSE"), what="UxOps: TypeOK, IsUx, GridDimsConsistent, SameGrid, DeepCopyFresh, GridsGrow; programs of depth <= %d" % depth,
                    workers=8, timeout=1500)
     # sanity: a wrong operation (shorter grid dim, same grid) is caught by the invariant
-    rb = ctx.tlc("UxOps", MODEL_CFG % (1, "TRUE", "FALSE"), what="UxOps with a deliberately broken operation (must violate GridDimsConsistent)", workers=2, count=False)
-    if rb.violated != "GridDimsConsistent":
-        raise Machinery("the broken-operation variant did not violate GridDimsConsistent (got %s)" % rb.violated)
+    for inv in ("GridDimsConsistent", "DataFollowsGrid"):
+        rb = ctx.tlc("UxOps", BROKEN_CFG % (1, "TRUE", "FALSE", inv), what="UxOps with deliberately broken operations (must violate %s)" % inv, workers=2, count=False)
+        if rb.violated != inv:
+            raise Machinery("the broken-operation variant did not violate %s (got %s)" % (inv, rb.violated))
 
     # 2. generation: successor tables with expected abstract results, from TLC
     rg = ctx.tlc_ok("UxOps", GEN_CFG % (depth, "FALSE", "TRUE"), what="generation: successor table of every state within depth %d (one representative per abstract state; -coverage)" % depth,
@@ -460,25 +480,34 @@ def run(ctx):
 
     # binding demonstration: corrupt one logged field of an accepted trace; TLC must reject it with the right clause
     corrupt = {}
-    # the base trace is synthesised from the specification's own expectation (independent of the implementation)
+    # the base traces are synthesised from the specification's own expectation (independent of the implementation)
     s0 = next(k for k in starts if start_id(table[k][0]) == "time+n_face")
     a0, G0, mv0 = table[s0]
     base_cnt = X.counts(X.env()["base"])
-    steps0, cur = [], s0
-    for _ in range(2):
-        free_, ea, eG = table[cur][2][("abs", "-")]
-        steps0.append({"op": "abs", "d": "-", "out": "value", "val": "eq", "cls": "Ux", "grid": ea["grid"], "name": ea["name"],
-                       "dims": [{"k": q["k"], "n": q["n"], "size": base_cnt[q["k"]] if q["k"] in X.GRID_KINDS else q["n"]} for q in ea["dims"]],
-                       "g": {"cnt": base_cnt, "eq": [], "share": []}})
-        cur = skey(ea, eG)
-    base = {"id": "corrupt:none", "init": {"arr": a0, "grids": G0}, "steps": steps0, "pre_kinds": ["base", "base"]}
-    traces.append(base)
+    sub_cnt = {"n_face": 2, "n_node": 6, "n_edge": 7}
 
-    def corrupted(tag, clause, edit):
-        t = json.loads(json.dumps({k: base[k] for k in ("id", "init", "steps")}))
+    def synth(tid, ops):
+        steps0, cur = [], s0
+        for op in ops:
+            free_, ea, eG = table[cur][2][(op, "-")]
+            cnt = sub_cnt if eG[ea["grid"] - 1]["kind"] == "subset" else base_cnt
+            steps0.append({"op": op, "d": "-", "out": "value", "val": "eq", "cls": "Ux", "grid": ea["grid"], "name": "v",
+                           "dims": [{"k": q["k"], "n": q["n"], "size": cnt[q["k"]] if q["k"] in X.GRID_KINDS else q["n"]} for q in ea["dims"]],
+                           "g": {"cnt": cnt, "eq": [1] if op in X.COPY_OPS else [], "share": [], "mem": [], "leak": []},
+                           "src": [0, 1] if op in X.SELECT_OPS else [], "sel": [0, 1] if op in X.SELECT_OPS else []})
+            cur = skey(ea, eG)
+        t = {"id": tid, "init": {"arr": a0, "grids": G0}, "steps": steps0, "pre_kinds": ["base"] * len(ops)}
+        traces.append(t)
+        return t
+
+    bases = {"abs": synth("corrupt:none", ["abs", "abs"]), "sel": synth("corrupt:none-select", ["abs", "isel_grid_kw"]),
+             "copy": synth("corrupt:none-copy", ["abs", "copy_deep"])}
+
+    def corrupted(tag, clause, edit, base="abs"):
+        t = json.loads(json.dumps({k: bases[base][k] for k in ("id", "init", "steps")}))
         t["id"] = "corrupt:" + tag
         edit(t["steps"][-1])
-        t["pre_kinds"] = base["pre_kinds"]
+        t["pre_kinds"] = bases[base]["pre_kinds"]
         corrupt[t["id"]] = clause
         traces.append(t)
 
@@ -491,6 +520,11 @@ def run(ctx):
     corrupted("val", "ValuesAsXarray", lambda l: l.update(val="diff"))
     corrupted("name", "Name", lambda l: l.update(name="other"))
     corrupted("out", "Raises", lambda l: l.update(out="raised"))
+    corrupted("order", "DataFollowsGrid", lambda l: l.update(src=[1, 0]), base="sel")
+    corrupted("share", "DeepCopyIndependent", lambda l: l["g"].update(share=[1]), base="copy")
+    corrupted("mem", "DeepCopyIndependent", lambda l: l["g"].update(mem=[1]), base="copy")
+    corrupted("leak", "DeepCopyIndependent", lambda l: l["g"].update(leak=[1]), base="copy")
+    corrupted("uneq", "DeepCopyIndependent", lambda l: l["g"].update(eq=[]), base="copy")
 
     # 4. TLC validates the recorded traces against UxOps
     path = os.path.join(ctx.work, "traces.ndjson")
@@ -525,9 +559,10 @@ def run(ctx):
             expect_states += 1 + L
     if rt.distinct != expect_states:
         raise Machinery("trace validation visited %d states, %d expected from the verdicts" % (rt.distinct, expect_states))
-    if "corrupt:none" in rejected:
-        raise Machinery("binding demonstration: the conforming synthetic trace was rejected: %s" % (rejected["corrupt:none"],))
-    traces = [t for t in traces if t["id"] != "corrupt:none"]
+    for t in bases.values():
+        if t["id"] in rejected:
+            raise Machinery("binding demonstration: the conforming synthetic trace %s was rejected: %s" % (t["id"], rejected[t["id"]]))
+    traces = [t for t in traces if not t["id"].startswith("corrupt:none")]
     for tid, clause in corrupt.items():
         if tid not in rejected or rejected[tid][0] != 2 or clause not in rejected[tid][1]:
             raise Machinery("binding demonstration: corrupted trace %s (expected clause %s) was judged %s" % (tid, clause, rejected.get(tid)))
